@@ -411,9 +411,18 @@ def normIntText (s : Text) : Text :=
   if isHexPrefix (ds.take 2) then s
   else (if s.head? = some 45 then [45] else []) ++ dropZeros ds
 
-/-- `celpy.celtypes.IntType(<pasted text>)` evaluated by the compiled runner -/
-def transpiledInt (s : Text) : PyM Int := pyIntLiteral (normIntText s) >>= int64
-def transpiledUint (s : Text) : PyM Int := pyIntLiteral (normIntText s) >>= uint64
+/-- `Phase1Transpiler.literal` (since /repo 50c913c): the token text is first converted the way the
+interpreter does (`IntType(text)` / `UintType(text)`); if that fails the transpiled text is
+`literal_error(...)`, raised (ValueError) when the expression is evaluated. Otherwise the compiled runner
+evaluates `celpy.celtypes.IntType(<pasted text>)`. -/
+def transpiledInt (s : Text) : PyM Int :=
+  match intOfLit s with
+  | .error c => .error c
+  | .ok _ => pyIntLiteral (normIntText s) >>= int64
+def transpiledUint (s : Text) : PyM Int :=
+  match uintOfLit s with
+  | .error c => .error c
+  | .ok _ => pyIntLiteral (normIntText s) >>= uint64
 
 /-! ### what a numeric spelling denotes (specification side) -/
 
